@@ -14,6 +14,12 @@ func checkC07(p *Program, tier string) *Result {
 	ruleSeq(p, r)
 	ruleFramingWriter(p, r)
 	r.floor("R-FRAMING", 4)
+	// key-mismatch rejection: the reader writes the detector's reply once and returns an error (never the packet)
+	sub := newResult("C19")
+	ruleSibling(p, sub)
+	if r.takeFrom(sub, "R-SIBLING", "mismatch-path") == 0 {
+		r.undecided("R-SIBLING", "mismatch-path", "-", "the reader's key-mismatch path was not found")
+	}
 	r.Assumptions = append(r.Assumptions,
 		"each reply invocation puts one packet on the wire provided the reply body marshals; bodies built from configuration values (session authorization arguments) are assumed to marshal",
 		"handlers outside the module (third-party Handler implementations injected through the loader) are not analysed")
